@@ -435,7 +435,7 @@ class URL:
         _host: Union[str, None] = None
         if authority:
             user, password, _host, port = split_netloc(authority)
-            _host = _encode_host(_host, validate_host=False) if _host else ""
+            _host = _encode_host(_host, validate_host=True) if _host else ""
         elif host:
             _host = _encode_host(host, validate_host=True)
         else:
